@@ -110,7 +110,13 @@ def gen(seed, run, tier='quick'):
     curs = []
     for k, c in enumerate(codes):
         if rng.random() < 0.25:
-            curs.append({'how': 'new', 'sym': f"X{k}{c[0]}",
+            # a user-declared currency; sometimes its symbol is the
+            # lower-case (or padded) twin of an ISO code used in this run
+            twin = codes[(k + 1) % n_cur]
+            curs.append({'how': 'new',
+                         'sym': rng.choice([f"X{k}{c[0]}", f"X{k}{c[0]}",
+                                            twin.lower(), twin + ' ',
+                                            twin.capitalize()]),
                          'minor': rng.choice([0, 2, 3])})
         else:
             curs.append({'how': 'iso', 'sym': c})
@@ -156,6 +162,7 @@ def gen(seed, run, tier='quick'):
         n_ops = rng.randrange(150, 300)
     ops = []
     used_primes = set()
+    last_upd = {}
     big_p = rng.choice([0, 0, 0, 0.05, 0.15])
     small_p = rng.choice([0, 0, 0, 0.05, 0.15])
 
@@ -280,8 +287,28 @@ def gen(seed, run, tier='quick'):
         k = rng.choices(kinds, weights)[0]
         ci = rng.randrange(n_conv)
         if k == 'update':
-            v = _spell_validity(rng, convs[ci]['kind'], some_date())
-            ops.append(['update', ci, v, rate_specs(ci)])
+            if ci in last_upd and rng.random() < 0.12:
+                # the period of the previous feed once more (spelled anew):
+                # some of its entries re-stated word for word, the others
+                # with new amounts, in another order
+                d_, prev = last_upd[ci]
+                specs_ = []
+                for sp in prev:
+                    if rng.random() < 0.5:
+                        specs_.append([list(sp[0]), dict(sp[1]),
+                                       dict(sp[2])])
+                    else:
+                        um_ = int(sp[2]['v']) if str(sp[2]['v']).isdigit() \
+                            else 1
+                        specs_.append([list(sp[0]), amount(um_)
+                                       if um_ <= 1000 else dict(sp[1]),
+                                       dict(sp[2])])
+                rng.shuffle(specs_)
+            else:
+                d_, specs_ = some_date(), rate_specs(ci)
+            v = _spell_validity(rng, convs[ci]['kind'], d_)
+            ops.append(['update', ci, v, specs_])
+            last_upd[ci] = (d_, specs_)
             if rng.random() < 0.05:
                 # one of the specs names the converter's own base currency
                 # (as object or by symbol): the statement does not say
